@@ -72,7 +72,8 @@ func (p *c17) directed(c fw.Case, cs *caseState) {
 			for _, want := range wants {
 				for k := 0; k < 8; k++ {
 					g := &genr{r: directedRand("top-"+f.name+want.String(), k)}
-					ck := newChecker(res, genBindings(g.r), nil)
+					g.b = genBindings(g.r)
+					ck := newChecker(res, g.b, nil)
 					var e *node
 					for attempt := 0; attempt < 10; attempt++ {
 						e = g.toTopLevel(g.callOf(f, want, 1))
@@ -94,7 +95,8 @@ func (p *c17) directed(c fw.Case, cs *caseState) {
 			pr := allPairs[pi]
 			for k := 0; k < 2; k++ {
 				g := &genr{r: directedRand("pair", pi*4+k)}
-				ck := newChecker(res, genBindings(g.r), nil)
+				g.b = genBindings(g.r)
+				ck := newChecker(res, g.b, nil)
 				var e *node
 				for attempt := 0; attempt < 10; attempt++ {
 					e = g.toTopLevel(g.place(g.callOf(pr.f, pr.ret, 1), pr.pos, 0))
@@ -170,6 +172,14 @@ func (p *c17) directed(c fw.Case, cs *caseState) {
 				cs.runTemplate(ck, &tmpl{segs: []seg{{text: "v="}, {expr: refNode(d.legacy, d.t), ident: ident}, {text: ";"}}}, "directed")
 			}
 		}
+	case strings.HasPrefix(c.Directed, "number-forms-"):
+		var chunk int
+		fmt.Sscanf(c.Directed, "number-forms-%d", &chunk)
+		p.directedNumberForms(chunk, cs)
+	case strings.HasPrefix(c.Directed, "reference-names-"):
+		var chunk int
+		fmt.Sscanf(c.Directed, "reference-names-%d", &chunk)
+		p.directedReferenceNames(chunk, cs)
 	case c.Directed == "pinned-corpus":
 		for _, src := range pinnedCorpus {
 			checkRaw(cs, src)
@@ -181,6 +191,12 @@ func directedNames() []string {
 	names := []string{"known-probes", "each-function-top", "literals", "templates-text", "pinned-corpus"}
 	for i := 0; i < pairChunks; i++ {
 		names = append(names, fmt.Sprintf("pairs-%02d", i))
+	}
+	for i := 0; i < numFormChunks; i++ {
+		names = append(names, fmt.Sprintf("number-forms-%d", i))
+	}
+	for i := 0; i < refNameChunks; i++ {
+		names = append(names, fmt.Sprintf("reference-names-%d", i))
 	}
 	return names
 }
